@@ -132,6 +132,69 @@ async def sc_base_tunnel_endpoint(loop: Any, env: Env) -> None:
     await asyncio.sleep(0.5)
 
 
+class _FakeSocket:
+    """
+    Stands in for the OS socket the UDP broadcast bootstrapper creates by hand (no datagram leaves the sandbox).
+    """
+
+    def __init__(self, *a: Any, **kw: Any) -> None:
+        self.closed = False
+        self.sent = 0
+
+    def setsockopt(self, *a: Any) -> None:
+        pass
+
+    def bind(self, addr: Any) -> None:
+        pass
+
+    def sendto(self, data: bytes, addr: Any) -> int:
+        self.sent += 1
+        return len(data)
+
+    def getsockname(self) -> tuple:
+        return ("0.0.0.0", 39999)
+
+    def close(self) -> None:
+        self.closed = True
+
+
+async def sc_bootstrap(loop: Any, env: Env) -> None:
+    """
+    A Community that finds its first peers through its bootstrappers: the UDP broadcast bootstrapper (opens a socket of
+    its own during initialisation) and the Dispersy bootstrapper (one address given, one host name to resolve).
+    """
+    from ipv8.bootstrapping.dispersy.bootstrapper import DispersyBootstrapper
+    from ipv8.bootstrapping.udpbroadcast import bootstrapper as bb
+    if bb.socket is not _FakeSocket:
+        real = bb.socket
+        bb.socket = _FakeSocket
+        env.extra_cleanup.append(lambda: setattr(bb, "socket", real))
+    cls = _mk_community("PlainCommunity3", b"\x13" * 20)
+    nodes = [env.node() for _ in range(3)]
+    ovs = [nd.add(cls) for nd in nodes]
+    loop.hosts["tracker.example"] = nodes[2].address[0]
+    import socket as _socket
+    real_ghbn = _socket.gethostbyname
+    ovs[0].bootstrappers = [bb.UDPBroadcastBootstrapper(bootstrap_timeout=2.0),
+                            DispersyBootstrapper([nodes[1].address], [], bootstrap_timeout=2.0)]
+    env.target(nodes[0], ovs[0])
+    env.t(lambda: ovs[0].bootstrap())
+    await asyncio.sleep(0.2)
+    # another node's beacon arrives on the broadcast socket, then a packet of the overlay arrives there
+    for t in loop.transports:
+        if isinstance(t.protocol, bb.BroadcastBootstrapEndpoint) and not t.closed:
+            t.inject(bb.HDR_ANNOUNCE + ovs[0].get_prefix(), nodes[2].address)
+    await asyncio.sleep(0.2)
+    ovs[2].walk_to(nodes[0].address)
+    await asyncio.sleep(2.5)
+    env.t(lambda: ovs[0].bootstrap())          # second round: both bootstrappers are initialised by now
+    await asyncio.sleep(0.5)
+    for b in ovs[0].bootstrappers:
+        env.t(lambda b=b: b.keep_alive(ovs[0]))
+    await asyncio.sleep(0.5)
+    del real_ghbn
+
+
 async def sc_discovery(loop: Any, env: Env) -> None:
     from ipv8.peerdiscovery.community import DiscoveryCommunity
     nodes = [env.node() for _ in range(3)]
@@ -410,6 +473,7 @@ async def sc_attestation(loop: Any, env: Env) -> None:
 SCENARIOS: dict[str, Callable] = {
     "base": sc_base,
     "base_te": sc_base_tunnel_endpoint,
+    "bootstrap": sc_bootstrap,
     "discovery": sc_discovery,
     "dht": sc_dht,
     "tunnel": sc_tunnel,
